@@ -15,6 +15,11 @@ macro_rules
       (simp only [Iter.step] at $h:ident)
       (repeat' split at $h:ident)
       all_goals (try (simp at $h:ident; done))
+      -- branches of the model that exist only when the two lock sections are not atomic with respect to each
+      -- other (`sectionsAtomic = false`: the dispatcher's check and its parking are separate steps): impossible
+      -- under `Code.Sound`
+      all_goals (try (exfalso; first
+        | (refine absurd (Iter.Code.Sound.sectionsAtomic (c := ?_) ?_) ?_ <;> (first | assumption | skip); done)))
       all_goals (simp only [Option.some.injEq] at $h:ident; subst $h:ident)
       all_goals ($t)))
 
@@ -29,11 +34,16 @@ def dSendIn : DPc → Bool
   | _ => false
 def dHolding : DPc → Bool
   | .acquire _ => true
+  | .checked _ => true
   | .parked _ => true
   | .sendIn _ => true
   | _ => false
 def dParked : DPc → Bool
   | .parked _ => true
+  | _ => false
+/-- "checked, not yet parked": exists only without `sectionsAtomic` -/
+def dChecked : DPc → Bool
+  | .checked _ => true
   | _ => false
 def dDone : DPc → Bool
   | .done => true
@@ -124,6 +134,9 @@ structure InvA (cfg : Cfg) (s : St) : Prop where
   T : s.inFlight + s.i = s.dispI + b2n (dSendIn s.disp)
   Tb : 0 ≤ s.inFlight ∧ s.inFlight ≤ buf cfg
   PK : dParked s.disp = true → s.inFlight = buf cfg
+  /-- the lock sections are atomic (`Code.Sound.sectionsAtomic`): the dispatcher is never between its check
+  and its parking -/
+  NC : dChecked s.disp = false
   S : s.srcItems.length = s.dispI + b2n (dHolding s.disp)
   Y : s.i = cnt isVal s.results
   IC : s.inClosed = dDone s.disp
@@ -135,13 +148,13 @@ structure InvA (cfg : Cfg) (s : St) : Prop where
 theorem invA_init (cfg : Cfg) (hs : cfg.code.Sound) (hg : 1 ≤ cfg.gmp) : InvA cfg (Iter.init cfg) := by
   have := numWorkers_cast hs hg
   have := buf_pos hs hg
-  refine ⟨?_, ?_, ?_, ?_, ?_, ?_, ?_, ?_, ?_, ?_, ?_⟩ <;>
-    simp [Iter.init, b2n, dSendIn, dParked, dHolding, dDone, wDone] <;> omega
+  refine ⟨?_, ?_, ?_, ?_, ?_, ?_, ?_, ?_, ?_, ?_, ?_, ?_⟩ <;>
+    simp [Iter.init, b2n, dSendIn, dParked, dChecked, dHolding, dDone, wDone] <;> omega
 
 set_option maxHeartbeats 1600000 in
 theorem invA_step {cfg : Cfg} (hs : cfg.code.Sound) (hg : 1 ≤ cfg.gmp) {s s' : St} {l : Label} (hp : InvP cfg s) (hi : InvA cfg s)
     (h : Iter.step cfg s l = some s') : InvA cfg s' := by
-  have ⟨ilen, iT, iTb, iPK, iS, iY, iIC, iSE, iND, iCC, iWD⟩ := hi
+  have ⟨ilen, iT, iTb, iPK, iNC, iS, iY, iIC, iSE, iND, iCC, iWD⟩ := hi
   have hn := numWorkers_cast hs hg
   have hb := buf_pos hs hg
   cases l with
@@ -151,8 +164,8 @@ theorem invA_step {cfg : Cfg} (hs : cfg.code.Sound) (hg : 1 ≤ cfg.gmp) {s s' :
        have g1 := cnt_ge wDone hw
        have g3 := fun hb => cnt_add_one_le (p := wDone) hw hb
        have l1 := S.cnt_le_length_of wDone hw
-       refine ⟨?_, ?_, ?_, ?_, ?_, ?_, ?_, ?_, ?_, ?_, ?_⟩ <;>
-         simp [cnt_set hw, b2n, dSendIn, dParked, dHolding, dDone, wDone, isVal, hs.lastWorker, hs.lastCloses, hs.closesIn] at * <;> grind)
+       refine ⟨?_, ?_, ?_, ?_, ?_, ?_, ?_, ?_, ?_, ?_, ?_, ?_⟩ <;>
+         simp [cnt_set hw, b2n, dSendIn, dParked, dChecked, dHolding, dDone, wDone, isVal, hs.lastWorker, hs.lastCloses, hs.closesIn] at * <;> grind)
   | cYield =>
     iter_cases h =>
       (have hf := ‹List.find? _ s.heap = some _›
@@ -167,14 +180,14 @@ theorem invA_step {cfg : Cfg} (hs : cfg.code.Sound) (hg : 1 ≤ cfg.gmp) {s s' :
          by_cases hlt : s.i < s.dispI
          · exact hlt
          · simp [b2n, hlt] at h1; omega
-       refine ⟨?_, ?_, ?_, ?_, ?_, ?_, ?_, ?_, ?_, ?_, ?_⟩ <;>
-         simp [b2n, dSendIn, dParked, dHolding, dDone, isVal, hs.signalCond, hs.signals] at * <;>
-         grind [dSendIn, dParked, dHolding, dDone])
+       refine ⟨?_, ?_, ?_, ?_, ?_, ?_, ?_, ?_, ?_, ?_, ?_, ?_⟩ <;>
+         simp [b2n, dSendIn, dParked, dChecked, dHolding, dDone, isVal, hs.signalCond, hs.signals] at * <;>
+         grind [dSendIn, dParked, dChecked, dHolding, dDone])
   | _ =>
     iter_cases h =>
-      (refine ⟨?_, ?_, ?_, ?_, ?_, ?_, ?_, ?_, ?_, ?_, ?_⟩ <;>
-         simp [b2n, dSendIn, dParked, dHolding, dDone, isVal, hs.full, hs.signalCond, hs.signals, hs.waits, hs.closesIn, hs.srcEnded] at * <;>
-         grind [dSendIn, dParked, dHolding, dDone])
+      (refine ⟨?_, ?_, ?_, ?_, ?_, ?_, ?_, ?_, ?_, ?_, ?_, ?_⟩ <;>
+         simp [b2n, dSendIn, dParked, dChecked, dHolding, dDone, isVal, hs.full, hs.signalCond, hs.signals, hs.waits, hs.closesIn, hs.srcEnded, hs.sectionsAtomic] at * <;>
+         grind [dSendIn, dParked, dChecked, dHolding, dDone])
 
 theorem invA {cfg : Cfg} (hs : cfg.code.Sound) (hg : 1 ≤ cfg.gmp) {s : St} (h : Reach cfg s) : InvA cfg s := by
   induction h with
